@@ -229,6 +229,58 @@ def arrays2d(rnd, thorough):
                       "iy": 0 if isinstance(ky, tuple) else 1, "exc": exc, "v": 7, "full": full})
 
 
+def arrays2d_sources(rnd, thorough):
+    """a[kx, ky] = <1-D array>: the source is consumed in the array's own storage order (x varies fastest) over the selected
+    block; a source of another length raises.  And indices that are not a pair (an int, a slice, a 1- or 3-tuple) raise for
+    every kind of source instead of being taken apart as a pair."""
+    keys = [-2, -1, 0, 1, 2, (NONE, NONE, NONE), (0, 2, NONE), (1, NONE, NONE), (NONE, 2, NONE), (0, 3, 2), (NONE, NONE, 2), (2, 1, NONE)]
+    for cname, acls in (("IntArray2D", "IntArray"), ("FloatArray2D", "FloatArray"), ("DoubleArray2D", "DoubleArray")):
+        cls = getattr(imath, cname)
+        A = getattr(imath, acls)
+        for (nx, ny) in ((2, 2), (2, 3), (3, 2), (4, 3)):
+            pairs = list(itertools.product(keys, keys))
+            if not thorough:
+                pairs = rnd.sample(pairs, 40)
+            for (kx, ky) in pairs:
+                for delta in (0, 0, 1):
+                    a = cls(nx, ny)
+                    for x in range(nx):
+                        for y in range(ny):
+                            a[x, y] = 10 * x + y + 1
+                    try:
+                        cx = len(range(*key2(kx).indices(nx))) if isinstance(kx, tuple) else 1
+                        cy = len(range(*key2(ky).indices(ny))) if isinstance(ky, tuple) else 1
+                    except Exception:  # noqa
+                        cx = cy = 1
+                    m = max(0, cx * cy + delta)
+                    src = A(m)
+                    for z in range(m):
+                        src[z] = 500 + z
+                    exc = 0
+                    try:
+                        a[key2(kx), key2(ky)] = src
+                    except BaseException:  # noqa
+                        exc = 1
+                    full = [[ival(a.item(x, y)) for y in range(ny)] for x in range(nx)]
+                    emit({"e": "set2d1", "cls": cname, "nx": nx, "ny": ny, "kx": jkey(kx), "ky": jkey(ky), "ix": 0 if isinstance(kx, tuple) else 1,
+                          "iy": 0 if isinstance(ky, tuple) else 1, "srclen": m, "exc": exc, "full": full})
+        # malformed indices
+        for label, idx in (("int", 0), ("slice", slice(0, 1)), ("tuple1", (0,)), ("tuple3", (0, 0, 0)), ("none", None)):
+            for sk in ("scalar", "1d", "2d"):
+                a = cls(2, 2)
+                for x in range(2):
+                    for y in range(2):
+                        a[x, y] = 10 * x + y + 1
+                val = 7 if sk == "scalar" else (A(4) if sk == "1d" else cls(2, 2))
+                exc = 0
+                try:
+                    a[idx] = val
+                except BaseException:  # noqa
+                    exc = 1
+                full = [[ival(a.item(x, y)) for y in range(2)] for x in range(2)]
+                emit({"e": "set2dbad", "cls": cname, "index": label, "src": sk, "exc": exc, "full": full})
+
+
 def masks2d(rnd, thorough):
     """2-D masked assignment / ifelse / arithmetic: operands must have the same shape, not just the same size."""
     shapes = [(1, 1), (1, 2), (2, 1), (2, 2), (2, 3), (3, 2), (1, 4), (4, 1)]
@@ -586,6 +638,7 @@ def main():
     mviews_strided()
     frombufs()
     arrays2d(rnd, thorough)
+    arrays2d_sources(rnd, thorough)
     masks2d(rnd, thorough)
     matrices(rnd, thorough)
     strings(rnd, thorough)
